@@ -71,11 +71,21 @@ def grammar_paths():
 
 
 FLAGS = [f for f in itertools.product([True, False], repeat=4) if any(f)]
-WINDOWS = [(s, e) for s in (None, -1, 0, 1) for e in (None, -1, 0, 1) if s is None or e is None or s <= e]
+# (start offset ms, end offset ms, naive): the third field says whether the window is handed over as naive datetimes,
+# which handler and listing both document to mean UTC (the checks run with a non-UTC local time zone)
+WINDOWS = [(s, e, nv) for s in (None, -1, 0, 1) for e in (None, -1, 0, 1) if s is None or e is None or s <= e
+           for nv in ((False, True) if (s is not None or e is not None) else (False,))]
 
 
-def dt(off):
-    return None if off is None else datetime.datetime(1970, 1, 1, tzinfo=datetime.timezone.utc) + datetime.timedelta(seconds=T, milliseconds=off)
+def _nv(win):
+    return len(win) > 2 and bool(win[2])
+
+
+def dt(off, naive=False):
+    if off is None:
+        return None
+    t = datetime.datetime(1970, 1, 1, tzinfo=datetime.timezone.utc) + datetime.timedelta(seconds=T, milliseconds=off)
+    return t.replace(tzinfo=None) if naive else t
 
 
 def budget(tier):
@@ -117,7 +127,7 @@ class Oracle:
             root, full = self.tree_for(p)
             drf = rfharness.drf()
             out = drf.lsdrf(root, include_drf=flags[0], include_dmd=flags[1], include_drf_properties=flags[2],
-                            include_dmd_properties=flags[3], starttime=dt(win[0]), endtime=dt(win[1]))
+                            include_dmd_properties=flags[3], starttime=dt(win[0], _nv(win)), endtime=dt(win[1], _nv(win)))
             ok = full in out
             if ok and win[0] is not None:
                 # the forward-fill aside: a metadata data file listed although its stamp is before start
@@ -151,7 +161,7 @@ def make_handler(flags, win, log):
         def on_moved(self, event):
             log.append(("moved", event.src_path, event.dest_path))
 
-    return Rec(starttime=dt(win[0]), endtime=dt(win[1]), include_drf=flags[0], include_dmd=flags[1],
+    return Rec(starttime=dt(win[0], _nv(win)), endtime=dt(win[1], _nv(win)), include_drf=flags[0], include_dmd=flags[1],
                include_drf_properties=flags[2], include_dmd_properties=flags[3])
 
 
@@ -183,7 +193,7 @@ def judge_tuple(orc, paths, res, count, flags_list=None, windows=None):
                     if log:
                         res.fail("directory-event-dispatched", "%s %s -> %r" % (cls.__name__, full, log))
                         orc.fail_cases.append({"paths": [list(p), ["chrf", SUB_OK, "zz@1.000.h5"]], "flags": list(flags), "win": list(win)})
-                nt += 1 if (p[2] not in (FILES[0], FILES[2]) or p[1] != SUB_OK or win != (None, None)) else 0
+                nt += 1 if (p[2] not in (FILES[0], FILES[2]) or p[1] != SUB_OK or tuple(win[:2]) != (None, None)) else 0
             for ps in paths:
                 for pd in paths:
                     if ps == pd:
